@@ -109,11 +109,75 @@ Proof.
   rewrite H1, H2, Z.eqb_refl. apply IH. lia.
 Qed.
 
-(* ---------- definition lines ---------- *)
-Lemma def_line_bounds l nmo heo : def_line l nmo heo -> nmo < heo /\ heo < length l.
+(* ---------- definition headers ---------- *)
+Lemma def_line_bounds hl l nmo heo : def_line hl l nmo heo -> nmo < heo /\ heo < length l.
 Proof.
-  intros H. destruct H as [d nm gs rest _ _ _ _ Hr _ _ | a d nm gs rest _ _ _ _ _ Hr _ _];
+  intros H. destruct H as [d nm gs rest _ _ _ _ Hr _ _ _ | a d nm gs rest _ _ _ _ _ Hr _ _ _];
     (destruct rest as [|r0 rest]; [congruence|]); cbn [length]; rewrite app_length; cbn [length]; lia.
+Qed.
+
+(* the tokens from the end of the recognised shape to the end of the header stand on the header's last line *)
+Lemma def_line_rest hl l nmo heo : def_line hl l nmo heo ->
+  forall j, heo <= j < length l -> tok_line l j = hl.
+Proof.
+  intros H. destruct H as [d nm gs rest _ _ _ _ _ _ _ HF | a d nm gs rest _ _ _ _ _ _ _ _ HF]; intros j Hj.
+  - change (d :: nm :: gs ++ rest) with ((d :: nm :: gs) ++ rest) in *.
+    rewrite app_length in Hj. cbn [length] in Hj.
+    replace j with (length (d :: nm :: gs) + (j - length (d :: nm :: gs))) by (cbn [length]; lia).
+    rewrite tok_line_app2. apply (tok_line_Forall (fun z => z = hl)); [exact HF | cbn [length]; lia].
+  - change (a :: d :: nm :: gs ++ rest) with ((a :: d :: nm :: gs) ++ rest) in *.
+    rewrite app_length in Hj. cbn [length] in Hj.
+    replace j with (length (a :: d :: nm :: gs) + (j - length (a :: d :: nm :: gs))) by (cbn [length]; lia).
+    rewrite tok_line_app2. apply (tok_line_Forall (fun z => z = hl)); [exact HF | cbn [length]; lia].
+Qed.
+
+(* line numbers that never decrease between adjacent tokens *)
+Definition adj_mono (l : list token) : Prop :=
+  forall i a b, nth_error l i = Some a -> nth_error l (S i) = Some b -> (t_line a <= t_line b)%Z.
+
+Lemma adj_mono_tl a l : adj_mono (a :: l) -> adj_mono l.
+Proof. intros H i x y Hx Hy. exact (H (S i) x y Hx Hy). Qed.
+
+Lemma adj_first : forall l a, adj_mono (a :: l) -> Forall (fun t => (t_line a <= t_line t)%Z) (a :: l).
+Proof.
+  induction l as [|b l IH]; intros a H.
+  - constructor; [lia | constructor].
+  - constructor; [lia|]. pose proof (H 0 a b eq_refl eq_refl) as Hab.
+    eapply Forall_impl; [|exact (IH b (adj_mono_tl a _ H))]. cbn beta. intros t Ht. lia.
+Qed.
+
+Lemma adj_last : forall l a, adj_mono (a :: l) -> Forall (fun t => (t_line t <= t_line (last (a :: l) dtok))%Z) (a :: l).
+Proof.
+  induction l as [|b l IH]; intros a H.
+  - constructor; [cbn [last]; lia | constructor].
+  - pose proof (H 0 a b eq_refl eq_refl) as Hab. pose proof (IH b (adj_mono_tl a _ H)) as HF.
+    change (last (a :: b :: l) dtok) with (last (b :: l) dtok).
+    constructor; [|exact HF]. apply Forall_inv in HF. lia.
+Qed.
+
+Lemma head_at_lines c ln hl l : head_at c ln hl l -> Forall (fun t => (ln <= t_line t <= hl)%Z) l.
+Proof.
+  intros (Hne & Hln & _ & Hhl & Hadj & _). destruct l as [|a l]; [congruence|].
+  assert (Hm : adj_mono (a :: l)) by (intros i x y Hx Hy; apply (Hadj i x y Hx Hy)).
+  pose proof (adj_first l a Hm) as H1. pose proof (adj_last l a Hm) as H2.
+  cbn [hd] in Hln. unfold dtok in H2. rewrite Hhl in H2. rewrite Hln in H1.
+  rewrite Forall_forall in *. intros t Ht. specialize (H1 t Ht). specialize (H2 t Ht). lia.
+Qed.
+
+Lemma head_at_len c ln hl l : head_at c ln hl l -> 0 < length l.
+Proof. intros (Hne & _). destruct l; [congruence | cbn [length]; lia]. Qed.
+
+(* every physical line of a header starts in a column >= c (the further ones: > c) *)
+Lemma head_at_indent c ln hl l : head_at c ln hl l -> forall k, k < length l -> (c <= line_indent l k)%Z.
+Proof.
+  intros (Hne & _ & Hc & _ & Hadj & _). unfold line_indent.
+  induction k as [|k IH]; intros Hk; cbn [line_first_index].
+  - rewrite tok_col_0. unfold dtok. rewrite Hc. lia.
+  - destruct (Z.eqb_spec (tok_line l k) (tok_line l (S k))) as [E|E]; [apply IH; lia|].
+    destruct (nth_error l k) as [a|] eqn:Ea; [|apply nth_error_None in Ea; lia].
+    destruct (nth_error l (S k)) as [b|] eqn:Eb; [|apply nth_error_None in Eb; lia].
+    destruct (Hadj k a b Ea Eb) as [H1 H2]. unfold tok_line in E. rewrite Ea, Eb in E.
+    unfold tok_col. rewrite Eb. lia.
 Qed.
 
 (* ---------- a segment of lines: numbers in (lo, hi], first token in column c, every line indented >= c ---------- *)
@@ -126,6 +190,14 @@ Proof.
   intros (Hne & Hln & Hc & Hnc & _) Hlo. split; [exact Hne|]. split; [|split; [exact Hc|split; [exact Hnc|]]].
   - eapply Forall_impl; [|exact Hln]. cbn beta. intros t Ht. lia.
   - intros k Hk. unfold line_indent. rewrite (lfi_one_line l ln Hln k Hk). rewrite tok_col_0. unfold dtok. rewrite Hc. lia.
+Qed.
+
+Lemma seg_head c ln hl l (lo : Z) : head_at c ln hl l -> (lo < ln)%Z -> seg_ok c lo l hl.
+Proof.
+  intros H Hlo. pose proof (head_at_lines _ _ _ _ H) as HL. pose proof (head_at_indent _ _ _ _ H) as HI.
+  destruct H as (Hne & _ & Hc & _ & _ & Hnc & _).
+  split; [exact Hne|]. split; [|split; [exact Hc|split; [exact Hnc|exact HI]]].
+  eapply Forall_impl; [|exact HL]. cbn beta. intros t Ht. lia.
 Qed.
 
 Lemma seg_lt c lo ts hi : seg_ok c lo ts hi -> (lo < hi)%Z.
@@ -179,17 +251,19 @@ Proof.
   eapply Forall_impl; [|exact H1]. cbn beta. intros t Ht. lia.
 Qed.
 
-(* the descriptor of a definition line followed by its suite *)
-Lemma def_shape c c' lo ln hi l sub nmo heo pre post :
-  line_at c ln l -> (lo < ln)%Z -> def_line l nmo heo -> (c < c')%Z -> seg_ok c' ln sub hi ->
+(* the descriptor of a definition header followed by its suite *)
+Lemma def_shape c c' lo ln hl hi l sub nmo heo pre post :
+  head_at c ln hl l -> (lo < ln)%Z -> def_line hl l nmo heo -> (c < c')%Z -> seg_ok c' hl sub hi ->
   Forall (fun t => (t_line t <= lo)%Z) pre -> post_ok c hi post ->
   py_shape (pre ++ (l ++ sub) ++ post)
     (mkPd (length pre + nmo) (length pre) (length pre + heo) (length pre + length l)
           (length pre + length l + length sub)).
 Proof.
   intros Hl Hlo Hd Hcc Hsub Hpre Hpost.
-  pose proof (def_line_bounds _ _ _ Hd) as [Hb1 Hb2].
-  destruct Hl as (Lne & Lln & Lc & Lnc & _).
+  pose proof (def_line_bounds _ _ _ _ Hd) as [Hb1 Hb2].
+  pose proof (def_line_rest _ _ _ _ Hd) as Hrest.
+  pose proof (head_at_lines _ _ _ _ Hl) as LL.
+  destruct Hl as (Lne & _ & Lc & _ & _ & _ & _).
   destruct Hsub as (Sne & SF & Sc & Snc & Sind).
   assert (Hs0 : 0 < length sub) by (destruct sub; [congruence | cbn [length]; lia]).
   set (W := pre ++ (l ++ sub) ++ post).
@@ -199,12 +273,11 @@ Proof.
   assert (Hlen : length W = length pre + length l + length sub + length post)
     by (unfold W; rewrite !app_length; lia).
   assert (Hpl : length (pre ++ l) = length pre + length l) by apply app_length.
-  assert (Lline : forall j, j < length l -> tok_line W (length pre + j) = ln).
-  { intros j Hj. rewrite W1, tok_line_ctx by exact Hj.
-    apply (tok_line_Forall (fun z => z = ln)); [exact Lln | exact Hj]. }
-  assert (Sline : forall j, j < length sub -> (ln < tok_line W (length pre + length l + j) <= hi)%Z).
+  assert (Lline : forall j, heo <= j < length l -> tok_line W (length pre + j) = hl).
+  { intros j Hj. rewrite W1, tok_line_ctx by lia. apply Hrest. exact Hj. }
+  assert (Sline : forall j, j < length sub -> (hl < tok_line W (length pre + length l + j) <= hi)%Z).
   { intros j Hj. rewrite W2, <- Hpl, tok_line_ctx by exact Hj.
-    apply (tok_line_Forall (fun z => (ln < z <= hi)%Z)); [exact SF | exact Hj]. }
+    apply (tok_line_Forall (fun z => (hl < z <= hi)%Z)); [exact SF | exact Hj]. }
   assert (Hcol : tok_col W (length pre) = c).
   { replace (length pre) with (length pre + 0) by lia. rewrite W1, tok_col_ctx by lia.
     rewrite tok_col_0. exact Lc. }
@@ -215,10 +288,11 @@ Proof.
   - rewrite Lline by lia. pose proof (Sline 0 Hs0) as H. rewrite Nat.add_0_r in H. lia.
   - intros k Hk. rewrite Hcol.
     replace k with (length (pre ++ l) + (k - length pre - length l)) by lia.
-    rewrite W2. rewrite (line_indent_ctx (pre ++ l) sub post ln).
+    rewrite W2. rewrite (line_indent_ctx (pre ++ l) sub post hl).
     + assert (Hi := Sind (k - length pre - length l)). lia.
-    + apply (pre_app lo); [exact Hpre | | lia].
-      eapply Forall_impl; [|exact Lln]. cbn beta. intros t Ht. lia.
+    + apply (pre_app lo); [exact Hpre | | ].
+      * eapply Forall_impl; [|exact LL]. cbn beta. intros t Ht. lia.
+      * destruct l as [|a l']; [congruence|]. apply Forall_inv in LL. lia.
     + eapply Forall_impl; [|exact SF]. cbn beta. intros t Ht. lia.
     + lia.
   - intros Hlt. rewrite Hcol.
@@ -254,16 +328,19 @@ Proof.
       destruct Hl as (_ & Lln & _). eapply Forall_impl; [|exact Lln]. cbn beta. intros t Ht. lia.
     + apply (post_ok_le c); [exact Hpost | lia].
   - (* pe_def *)
-    intros c off lo l ln nmo heo c' sub ds hi Hl Hlo Hd Hcc _ [IHs IHc].
+    intros c off lo l ln hl nmo heo c' sub ds hi Hl Hlo Hd Hcc _ [IHs IHc].
+    pose proof (head_at_lines _ _ _ _ Hl) as LL.
+    assert (Hlh : (ln <= hl)%Z).
+    { destruct Hl as (Lne & _). destruct l as [|a l']; [congruence|]. apply Forall_inv in LL. lia. }
     assert (Hseg : seg_ok c lo (l ++ sub) hi)
-      by (apply (seg_app c c' lo ln hi); [apply seg_line; assumption | exact IHs | lia]).
+      by (apply (seg_app c c' lo hl hi); [apply (seg_head c ln); assumption | exact IHs | lia]).
     split; [exact Hseg|]. intros pre post Hlen Hpre Hpost. constructor.
-    + subst off. apply (def_shape c c' lo ln hi); assumption.
+    + subst off. apply (def_shape c c' lo ln hl hi); assumption.
     + replace (pre ++ (l ++ sub) ++ post) with ((pre ++ l) ++ sub ++ post) by (rewrite <- !app_assoc; reflexivity).
       apply IHc.
       * rewrite app_length. lia.
       * apply (pre_app lo); [exact Hpre | | lia].
-        destruct Hl as (_ & Lln & _). eapply Forall_impl; [|exact Lln]. cbn beta. intros t Ht. lia.
+        eapply Forall_impl; [|exact LL]. cbn beta. intros t Ht. lia.
       * apply (post_ok_le c); [exact Hpost | lia].
   - (* pb_one *)
     intros c off lo e ds hi _ IH. exact IH.
@@ -319,8 +396,8 @@ Proof.
   - intros. split; constructor.
   - intros c off lo l ln c' sub ds hi _ _ _ _ _ [IH1 IH2]. split; [|exact IH2].
     eapply Forall_impl; [|exact IH1]. cbn beta. intros d (H1 & H2 & H3). unfold in_rng. rewrite app_length. lia.
-  - intros c off lo l ln nmo heo c' sub ds hi Hl _ _ _ Hsub [IH1 IH2].
-    assert (Hl0 : 0 < length l) by (destruct Hl as (Hne & _); destruct l; [congruence | cbn [length]; lia]).
+  - intros c off lo l ln hl nmo heo c' sub ds hi Hl _ _ _ Hsub [IH1 IH2].
+    assert (Hl0 : 0 < length l) by (apply (head_at_len _ _ _ _ Hl)).
     pose proof (pblock_nonempty_len _ _ _ _ (proj1 (proj2 (pentry_pblock_shape _) _ _ _ _ _ Hsub))) as Hs0.
     split.
     + constructor.
